@@ -133,3 +133,7 @@ func vfMapOrder(k int) {}
 // processor. vfPreemptions sets the engine's context bound (preemptive switches per path).
 func vfYield()            { runtime.Gosched() }
 func vfPreemptions(n int) {}
+
+// vfRaceDetect switches the engine's happens-before race detector on; natively the replay of a
+// reported race runs under `go test -race`.
+func vfRaceDetect() {}
